@@ -90,7 +90,7 @@ func runC15(c *Ctx) {
 				op = "ne"
 			}
 
-			return op + "(*var:e.Type," + p.ConstVal(pkgState, name) + ")"
+			return op + "(*var:pkg/state.Event.Type," + p.ConstVal(pkgState, name) + ")"
 		}
 		notify := func(in ssa.Instruction) bool { _, ok := in.(*ssa.MapUpdate); return ok }
 		handled := "call:" + cacheT + ".IsHandledBootstrapped(*)"
@@ -111,7 +111,7 @@ func runC15(c *Ctx) {
 		c.MustCut("R15.3", "CachePut/CacheRemove ⊣ {handled ∧ bootstrapped}", pe, p.CallTo(cacheT+".CachePut", cacheT+".CacheRemove"), CutSpec{Edges: FactEdge("true(" + handled + "#1)")}, 2)
 
 		for _, call := range p.Calls(pe, cacheT+".CachePut", cacheT+".CacheRemove", cacheT+".CacheAppend") {
-			c.Check(p.ArgDesc(call, 1) == "*var:e.Resource", "R15.3", FuncName(pe)+" :: "+call.Common().StaticCallee().Name()+" receives the event's resource", call.Pos(), "e.Resource", "argument "+p.ArgDesc(call, 1))
+			c.Check(p.ArgDesc(call, 1) == "*var:pkg/state.Event.Resource", "R15.3", FuncName(pe)+" :: "+call.Common().StaticCallee().Name()+" receives the event's resource", call.Pos(), "e.Resource", "argument "+p.ArgDesc(call, 1))
 		}
 
 		// the key/value put in the map come from the same event
@@ -130,7 +130,7 @@ func runC15(c *Ctx) {
 				}
 			}
 
-			c.Check(strings.Contains(d, "pkg/controller/runtime/internal/reduced.NewMetadata(call:(pkg/resource.Resource).Metadata(*var:e.Resource))"), "R15.3", FuncName(pe)+" :: notification entry is the reduced metadata of this event", mu.Pos(), "yes", "entry: "+d)
+			c.Check(strings.Contains(d, "pkg/controller/runtime/internal/reduced.NewMetadata(call:(pkg/resource.Resource).Metadata(*var:pkg/state.Event.Resource))"), "R15.3", FuncName(pe)+" :: notification entry is the reduced metadata of this event", mu.Pos(), "yes", "entry: "+d)
 		}
 
 		// ---------- R15.4 bootstrap protocol (runtime side)
@@ -313,7 +313,7 @@ func runC15(c *Ctx) {
 
 		c.MustCut("R15.6", "return ctx ⊣ {cancelled now, waiter goroutine started}", f, AndInstr(ReturnsNilConst(1), ReturnsNonNil(0)), CutSpec{Nodes: OrInstr(cancel, isGo), GoDeferCount: true}, 1)
 		c.MustCut("R15.6", "immediate cancel ⊣ {not found, phase == TearingDown}", f, p.PlainCallTo("dyn:call:context.WithCancel(*)#1"),
-			CutSpec{Edges: FactEdge("false(call:slices.BinarySearchFunc(*)#1)", "eq(call:(pkg/resource.Metadata).Phase(*),"+td+")")}, 2)
+			CutSpec{Edges: FactEdge("false(call:slices.BinarySearchFunc(*)#1)", "eq(call:(pkg/resource.Metadata).Phase(*),"+td+")")},1)
 		c.MustCut("R15.6", "waiter goroutine ⊣ {found ∧ not tearing down}", f, isGo, CutSpec{Edges: FactEdge("ne(call:(pkg/resource.Metadata).Phase(*)," + td + ")")}, 1)
 		c.MustCut("R15.6", "waiter goroutine ⊣ {found}", f, isGo, CutSpec{Edges: FactEdge("true(call:slices.BinarySearchFunc(*)#1)")}, 1)
 		c.MustCut("R15.6", "teardownWaiters[id] = ch ⊣ {no waiter registered yet}", f, func(in ssa.Instruction) bool {
